@@ -152,14 +152,20 @@ theorem src_timestamp_json_same_instant (d1 d2 : DT) (h1 : d1.off.getD 0 % 10000
 theorem ts_json_text_injective (a b : Int) (h : tsJsonText a = tsJsonText b) : a = b := by
   rw [← tsTextUs_tsJsonText a, ← tsTextUs_tsJsonText b, h]
 
-/-- **DEFECT (sub-second UTC offsets), of the source as written**: `dt.microsecond` is read BEFORE
-    the UTC normalisation, so for an aware datetime whose utcoffset is not a whole number of
-    seconds the fraction is that of the local wall clock.  12:00:00.500000 at UTC+0.25 s is the
-    instant 11:59:59.750 (here: 0.5 s local = 0.25 s UTC); the text says second 0 and ".500". -/
+/-- **D52 (sub-second UTC offsets), REPAIRED** (`fix:` commit in /repo; found by this tie: the first proof of
+    `src_timestamp_to_json` forced the guard `off % 10^6 = 0`).  Before the repair `dt.microsecond` was read BEFORE the
+    UTC normalisation, so for an aware datetime whose utcoffset is not a whole number of seconds the fraction was that
+    of the local wall clock: 00:00:00.500000 at UTC+0.25 s is the instant 0.250 s, and the text said ".500".  The source
+    as written now spells the instant, which is also what goes on the wire; the witness is replayed on the real code
+    by the C15 check on every run. -/
 theorem timestamp_to_json_subsecond_offset_witness :
-    Src.timestamp_to_json ⟨500000, some 250000⟩ = .ok ⟨⟨0⟩, some (3, 500)⟩
-    ∧ tsTextUs ⟨⟨0⟩, some (3, 500)⟩ = 500000 ∧ (⟨500000, some 250000⟩ : DT).instant = 250000
+    Src.timestamp_to_json ⟨500000, some 250000⟩ = .ok ⟨⟨0⟩, some (3, 250)⟩
+    ∧ tsTextUs ⟨⟨0⟩, some (3, 250)⟩ = 250000 ∧ (⟨500000, some 250000⟩ : DT).instant = 250000
     ∧ Src.timestamp_from_datetime (⟨500000, some 250000⟩ : DT).instant = .ok (0, 250000000) := by decide
+
+/-- since the repair the text spells the instant for EVERY datetime, whatever its utcoffset -/
+theorem src_timestamp_to_json_instant (d : DT) : Src.timestamp_to_json d = .ok (tsJsonText d.instant) := by
+  rw [src_timestamp_to_json]; rfl
 
 /-! non-vacuity -/
 example : Src.duration_delta_from_json "-1.500s".toList = .ok (-1500000) := by decide
